@@ -12,8 +12,8 @@ import (
 	"github.com/avos-io/goat/gen/goatorepo"
 	"google.golang.org/grpc"
 	"google.golang.org/grpc/metadata"
-	"google.golang.org/protobuf/types/known/wrapperspb"
 	"google.golang.org/grpc/stats"
+	"google.golang.org/protobuf/types/known/wrapperspb"
 )
 
 // c06CancelInsideCloseSend: the caller's context ends while CloseSend is between its "stream not done"
